@@ -320,6 +320,26 @@ def fn_key(fn):
     return parts[0] + '::' + '::'.join(parts[-2:])
 
 
+_callers = {}
+
+
+def callers_of(facts, fn):
+    key = id(facts)
+    if key not in _callers:
+        m = {}
+        for n, b in facts.bodies.items():
+            if not b.get('mir'):
+                continue
+            for blk in b['mir']['blocks']:
+                t = blk['term']
+                if t['k'] == 'call':
+                    m.setdefault(t.get('r') or t.get('f'), set()).add(n)
+                for x in re.finditer(r"'fn': '([^']+)'", str(blk)):
+                    m.setdefault(x.group(1), set()).add(n)
+        _callers[key] = m
+    return _callers[key].get(fn, set())
+
+
 def constructor_sites(program, rep, found):
     """PROV: a value of a subtag type is built (struct aggregate) only inside its validator, inside an `unsafe` unchecked constructor, in derive
     output, or as the empty language Language(None): no safe function can mint a subtag from unvalidated text"""
@@ -343,6 +363,13 @@ def constructor_sites(program, rep, found):
                         builds = True
             if not builds:
                 continue
+            if not b.get('reach'):
+                # a private helper (`fn wrap(s) -> Self { Self(s) }`): fine when only validators / unchecked constructors call it (the validator
+                # analysis explores it inline, so exactness is decided there)
+                callers = callers_of(facts, fn)
+                if callers and all(c in allowed or (facts.bodies[c].get('sig') and facts.bodies[c]['sig']['unsafe']) or (facts.bodies[c].get('impl') and facts.bodies[c]['impl'].get('derived'))
+                                   or any(c.startswith(a + '::') for a in allowed) for c in callers):
+                    continue
             n += 1
             e = pxm.PX(program, opaque=allowed)       # what the validator builds is the validator's business (VAI): keep it opaque here
             bad = []
